@@ -188,6 +188,14 @@ def _cells():
     nonherm["1x1_pure_i"] = {"gen": "entry", "m": 1, "n": 1, "i": 0, "j": 0, "q": [0.0, 1.0, 0.0, 0.0]}
     nonherm["2x2_generic"] = G(2, 2, 31)
     nonherm["2x2_imag_diag"] = {"gen": "add", "a": HERM2, "b": {"gen": "entry", "m": 2, "n": 2, "i": 1, "j": 1, "q": [0, 0, 0.5, 0]}}
+    # ... and at mid size (n = 13, 17), with the single offending entry in the last rows / columns: a
+    # guard that works on tiles or blocks must not lose the ragged remainder
+    for nb_ in (13, 17):
+        Hb_ = {"gen": "herm", "n": nb_, "seed": 40 + nb_, "lam": [round(2.0 - 0.2 * i_, 3) for i_ in range(nb_)]}
+        nonherm[f"{nb_}x{nb_}_last_row"] = {"gen": "add", "a": Hb_, "b": {"gen": "entry", "m": nb_, "n": nb_, "i": nb_ - 1, "j": 2,
+                                                                        "q": [0.5, 0, 0, 0]}}
+        nonherm[f"{nb_}x{nb_}_last_diag"] = {"gen": "add", "a": Hb_, "b": {"gen": "entry", "m": nb_, "n": nb_, "i": nb_ - 1,
+                                                                         "j": nb_ - 1, "q": [0, 0, 0.5, 0]}}
     for nm, M in nonherm.items():
         if nm.startswith("1x1"):
             B(f"det_moore:nonherm_{nm}", "utils.det", [M, "Moore"], argclass="non-Hermitian by a margin")
@@ -289,6 +297,23 @@ def _cells():
     OKM("in:hybrid:rank1_4x3", "hybrid", "compute", [{"gen": "psvd", "m": 4, "n": 3, "sigma": [1.0, 0.0, 0.0], "seed": 3}])
     OKM("in:cgne:zero4x2", "cgne", "compute", [{"gen": "zeros", "m": 4, "n": 2}])
     OKM("in:hybrid:zero4x2", "hybrid", "compute", [{"gen": "zeros", "m": 4, "n": 2}])
+    # option flags together with the smallest sizes (diagnostics code often assumes n >= 2)
+    for n_ in (1, 2):
+        Sq_ = G(n_, n_, 60 + n_)
+        for fn_, kw_ in (("decomp.quaternion_schur", {"max_iter": 10, "return_diagnostics": True}),
+                         ("decomp.quaternion_schur_pure", {"max_iter": 10, "return_diagnostics": True}),
+                         ("decomp.quaternion_schur_pure_implicit", {"max_iter": 10, "return_diagnostics": True}),
+                         ("decomp.schur.quaternion_schur_experimental", {"max_iter": 10, "return_diagnostics": True}),
+                         ("decomp.quaternion_lu", {"return_p": True})):
+            OK(f"in:{fn_.split('.')[-1]}:flags_{n_}x{n_}", fn_, [Sq_], kw_)
+        for v_ in ("rayleigh", "implicit", "aed", "ds", "none"):
+            OK(f"in:schur_unified:{v_}_diag_{n_}x{n_}", "decomp.quaternion_schur_unified", [Sq_],
+               {"max_iter": 10, "variant": v_, "return_diagnostics": True})
+    # mid-size exactly Hermitian input is accepted
+    for nb_ in (13, 17):
+        Hb_ = {"gen": "herm", "n": nb_, "seed": 40 + nb_, "lam": [round(2.0 - 0.2 * i_, 3) for i_ in range(nb_)]}
+        OK(f"in:tridiagonalize:{nb_}x{nb_}", "decomp.tridiagonalize", [Hb_])
+        OK(f"in:eigenvalues:{nb_}x{nb_}", "decomp.quaternion_eigenvalues", [Hb_])
     # Hermitian only up to rounding (Q D Q^H as computed, not symmetrised afterwards) at several
     # scales: what users actually have; a Hermitian test with an absolute tolerance rejects it at
     # large scale, an exact-equality test rejects it at every scale
